@@ -264,9 +264,13 @@ func runtimeScenario(pattern []outcome) explore.Scenario {
 	for i, o := range pattern {
 		names[i] = outcomeNames[o]
 	}
+	short := strings.Join(names, ",")
+	if len(names) > 8 {
+		short = fmt.Sprintf("%s,... (%d outcomes, the first %d repeating)", strings.Join(names[:9], ","), len(names), 9)
+	}
 	return explore.Scenario{
-		Name:       "runtime/" + strings.Join(names, ","),
-		Desc:       fmt.Sprintf("real runtime + QController whose reconcile of item a returns %v in turn (then ok), item b always ok: deliveries are timed on the virtual clock: requeue-after honoured, error backoff grows and resets after success/skip, the failing item does not delay the other item", names),
+		Name:       "runtime/" + short,
+		Desc:       fmt.Sprintf("real runtime + QController whose reconcile of item a returns %s in turn (then ok), item b always ok: deliveries are timed on the virtual clock: requeue-after honoured, error backoff grows and resets after success/skip, the failing item does not delay the other item", short),
 		Sequential: true,
 		Body: func(x *explore.X) {
 			var inv []invocation
@@ -320,7 +324,7 @@ func runtimeScenario(pattern []outcome) explore.Scenario {
 				}
 				tb := time.Duration(vrt.Now())
 				drain := func(first bool) {
-					for i := 0; i < 64; i++ {
+					for i := 0; i < 64+2*len(pattern); i++ {
 						vrt.WaitQuiescent()
 						if i == 0 && first {
 							// isolation: b must have been reconciled before any timer fired
@@ -389,7 +393,8 @@ func runtimeScenario(pattern []outcome) explore.Scenario {
 					if gap <= 0 {
 						x.Failf("retry %d of item a came without any backoff after %s: %v", i, outcomeNames[as[i-1].out], as)
 					}
-					if prevErrGap > 0 && gap <= prevErrGap {
+					// growing until the back-off's ceiling (one minute) can have been reached, never shrinking after
+					if prevErrGap > 0 && (gap < prevErrGap || (gap == prevErrGap && prevErrGap < 30*time.Second)) {
 						x.Failf("backoff did not grow between consecutive failures of item a: %v then %v: %v", prevErrGap, gap, as)
 					}
 					prevErrGap = gap
@@ -464,6 +469,19 @@ func build(tier string) []explore.Scenario {
 		}
 	}
 	rec(nil)
+	// persistent failure: long runs of one failing outcome (well past a quarter of an hour of virtual time, where a
+	// back-off with an elapsed-time limit would give up): every retry still waits, the waits never shrink
+	long := func(o ...outcome) []outcome {
+		var p []outcome
+		for len(p) < 48 {
+			p = append(p, o...)
+		}
+		return p
+	}
+	out = append(out, runtimeScenario(long(oErr)), runtimeScenario(long(oPanic)))
+	if tier == "thorough" {
+		out = append(out, runtimeScenario(long(oRequeueErr)), runtimeScenario(long(oErr, oPanic)), runtimeScenario(long(oErr, oRequeueErr)), runtimeScenario(long(oErr, oErr, oErr, oErr, oErr, oErr, oErr, oErr, oOK)))
+	}
 	return out
 }
 
